@@ -93,6 +93,18 @@ def val_eq(a, b):
 
 def same_value(a, b):
     """Final comparison of two results (original vs rewritten)."""
+    if isinstance(a, RangeV) or isinstance(b, RangeV):
+        return (isinstance(a, RangeV) and isinstance(b, RangeV) and same_value(a.lo, b.lo) and same_value(a.hi, b.hi)
+                and bool(a.xlo) == bool(b.xlo) and bool(a.xhi) == bool(b.xhi))
+    if isinstance(a, SetV) or isinstance(b, SetV):
+        if not (isinstance(a, SetV) and isinstance(b, SetV)):
+            return False
+        da, db = a.distinct(), b.distinct()
+        return len(da) == len(db) and all(any(same_value(x, y) for y in db) for x in da)
+    if isinstance(a, list) or isinstance(b, list):
+        return isinstance(a, list) and isinstance(b, list) and len(a) == len(b) and all(same_value(x, y) for x, y in zip(a, b))
+    if isinstance(a, dict) or isinstance(b, dict):
+        return isinstance(a, dict) and isinstance(b, dict) and a.keys() == b.keys() and all(same_value(a[k], b[k]) for k in a)
     if is_num(a) and is_num(b):
         return close(a, b)
     if isinstance(a, bool) or isinstance(b, bool):
@@ -369,6 +381,17 @@ def _aggregate(name, vals):
     raise ValueError(name)
 
 
+def _raise_pending(pending):
+    """Several sides are not defined: an abstention (ambiguous / ill-conditioned) outranks undefinedness,
+    because a verdict 'undefined' is not reliable when the oracle could not interpret a sibling."""
+    if not pending:
+        return
+    for e in pending:
+        if isinstance(e, (Ambig, IllConditioned)):
+            raise e
+    raise pending[0]
+
+
 def _connective(op, ma, mb, env):
     """Order-independent three-valued connectives (parallel/Kleene): a side that decides the
     result makes it defined even when the other side is undefined, whichever side it is.
@@ -385,9 +408,7 @@ def _connective(op, ma, mb, env):
 
     a, b = side(ma), side(mb)
     if op == 'iff':
-        for x in (a, b):
-            if isinstance(x, Exception):
-                raise x
+        _raise_pending([x for x in (a, b) if isinstance(x, Exception)])
         return a == b
     if op == 'implies':
         a = (not a) if isinstance(a, bool) else a
@@ -395,9 +416,7 @@ def _connective(op, ma, mb, env):
     decisive = op == 'or'  # or: one True decides; and: one False decides
     if a is decisive or b is decisive:
         return decisive
-    for x in (a, b):
-        if isinstance(x, Exception):
-            raise x
+    _raise_pending([x for x in (a, b) if isinstance(x, Exception)])
     return not decisive
 
 
@@ -471,19 +490,18 @@ def ev(m, env):
     if k == 'q':
         dom = elements(ev(m[3], env))
         decisive = m[1] == 'exists'  # exists: one True decides; forall: one False decides
-        pending = None
+        pending = []
         for x in dom:
             try:
                 r = ev(m[4], env.bind(m[2], x))
             except (Undef, Ambig, IllConditioned) as e:
-                pending = pending or e
+                pending.append(e)
                 continue
             if not isinstance(r, bool):
                 raise Ambig('quantifier body is not boolean')
             if r is decisive:
                 return decisive
-        if pending is not None:
-            raise pending
+        _raise_pending(pending)
         return not decisive
     if k == 'call':
         arg = ev(m[2], env)
